@@ -279,3 +279,31 @@ func VH_PL_PollStop() {
 	vx.Assert(vx.ChanClosed(sq) && vx.ChanClosed(connect) && vx.ChanClosed(disconnect), "C18:stop-closes-its-queues")
 	vx.Reach("done")
 }
+
+// VH_PL_PollNew (C18): the real constructor wires one registration queue and one departure queue between the
+// listener side and the worker, each with one slot per admitted connection (a connect or disconnect can then
+// always be queued without blocking a handler - Disconnect asserts exactly that), the worker's registry is
+// limited to the configured number of connections, and the submission queue has the configured size.
+func VH_PL_PollNew() {
+	maxc, buf, size := 1+vx.Choose(3), 1+vx.Choose(2), 1+vx.Choose(2)
+	cfg := &Config{Size: size, BufferSize: buf, MaxConnections: maxc, Addr: ":0", Timeout: 10000000000}
+	p, err := New(nil, metrics.New(prometheus.NewRegistry()), cfg)
+	vx.Assert(err == nil && p != nil && p.worker != nil && p.server != nil && p.server.server != nil, "C18:poll-transport-constructs")
+	if err != nil || p == nil || p.worker == nil {
+		return
+	}
+	h, _ := p.server.server.Handler.(*PollHandler)
+	vx.Assert(h != nil && h.config == cfg, "C18:listener-side-uses-the-configuration")
+	if h == nil {
+		return
+	}
+	var hc, hd chan<- *connection = p.connect, p.disconnect
+	var wc, wd <-chan *connection = p.connect, p.disconnect
+	var ws <-chan *aio.Message = p.sq
+	vx.Assert(h.connect == hc && h.disconnect == hd && p.worker.connect == wc && p.worker.disconnect == wd && p.worker.sq == ws, "C18:listener-side-and-worker-share-their-queues")
+	vx.Assert(cap(h.connect) >= maxc, "C18:one-registration-slot-per-admitted-connection")
+	vx.Assert(cap(h.disconnect) >= maxc, "C18:one-departure-slot-per-admitted-connection")
+	vx.Assert(cap(p.sq) == size, "C18:submission-queue-has-the-configured-size")
+	vx.Assert(p.worker.connections.max == maxc && p.worker.connections.conns != nil, "C18:registry-limited-to-the-configured-connections")
+	vx.Reach("done")
+}
